@@ -103,6 +103,7 @@ class Interp(object):
         self.symbolic = True       # unrecognised `name = <pure expr>` is kept as a symbolic binding and substituted on use
         self.helpers = default_helpers(fn)   # callable(call) -> FunctionDef of a newly introduced helper to interpret in place
         self.depth = 0
+        self.rewrite = None        # optional callable(expr, state) -> expr applied to every substituted expression (rule-specific folding)
         self.key_equals = None     # optional callable(key expr, constant key node, state) -> bool | None: decides {..}[K] / {..}.get(K)
         self.pure_calls = set()    # names of calls the rule declares free of effects (kept symbolically)
 
@@ -113,7 +114,7 @@ class Interp(object):
         uses_const = bool(consts) and any((isinstance(n, ast.Name) and ('', n.id) in consts and n.id not in senv) or
                                           (isinstance(n, ast.Attribute) and isinstance(n.value, ast.Name) and (n.value.id, n.attr) in consts)
                                           for n in ast.walk(node))
-        foldable = (self.key_equals is not None and any(isinstance(n, ast.Dict) for n in ast.walk(node))) or \
+        foldable = self.rewrite is not None or (self.key_equals is not None and any(isinstance(n, ast.Dict) for n in ast.walk(node))) or \
             any(isinstance(n, ast.Call) and isinstance(n.func, ast.Lambda) for n in ast.walk(node))
         if not uses_const and not foldable and (not senv or not any(isinstance(n, ast.Name) and n.id in senv for n in ast.walk(node))):
             return node
@@ -135,6 +136,8 @@ class Interp(object):
         if self.key_equals is not None:
             new = self._fold_lookups(new, state)
         new = _beta(new)
+        if self.rewrite is not None:
+            new = self.rewrite(new, state)
         for n in ast.walk(new):
             if not hasattr(n, 'lineno') and isinstance(n, (ast.expr, ast.stmt)):
                 ast.copy_location(n, node)
@@ -217,6 +220,38 @@ class Interp(object):
             self._locals = {n.id for n in ast.walk(self.fn) if isinstance(n, ast.Name) and isinstance(n.ctx, ast.Store)} | \
                 {a.arg for a in ast.walk(self.fn) if isinstance(a, ast.arg)}
         return self._locals
+
+    def expand_comprehension(self, comp, state, trace):
+        '''[elt for target in iter if cond ...] -> the list of elt expressions, one per abstract element of the iterable (the rule's
+        `iters` say what the elements are); None when an iterable or a filter is not understood'''
+        out = []
+
+        def rec(k, st_):
+            if k == len(comp.generators):
+                out.append(self.subst(comp.elt, st_))
+                return True
+            g = comp.generators[k]
+            it = self.subst(g.iter, st_)
+            elems = None
+            for cand in ([g.iter] if it is g.iter else [it, g.iter]):
+                for pattern, fn in self.iters:
+                    env = pm.match(pattern, cand)
+                    if env is not None:
+                        elems = fn(env, st_, trace)
+                        if elems is not None:
+                            break
+                if elems is not None:
+                    break
+            if elems is None:
+                return False
+            for el in elems:
+                st2 = dict(st_, senv=dict(st_.get('senv', {})), env=dict(st_.get('env', {})))
+                self.bind(g.target, el, st2)
+                if all(self.cond(c, st2, trace) for c in g.ifs):
+                    if not rec(k + 1, st2):
+                        return False
+            return True
+        return out if rec(0, state) else None
 
     def kill(self, names, state):
         senv = state.get('senv')
@@ -586,6 +621,14 @@ class Interp(object):
                     continue
             if not broke:
                 self.block(st.orelse, state, trace)
+            return
+        if isinstance(st, ast.With):
+            # the context managers of this repository (files, zip members) do not alter control flow: the body runs once
+            for item in st.items:
+                if item.optional_vars is not None:
+                    self.kill([n.id for n in ast.walk(item.optional_vars) if isinstance(n, ast.Name)], state)
+                trace.append(('with', src(item.context_expr)))
+            self.block(st.body, state, trace)
             return
         if isinstance(st, ast.Break):
             raise _Break()
